@@ -9,7 +9,7 @@ import lib
 import suites
 
 PROP = 'C07'
-LEAN_TARGETS = ['CGV.Props.C07', 'CGV.Props.C07Path', 'CGV.Props.C07Tree', 'CGV.Props.C07TreeGraph', 'CGV.Props.C07TreeRead']
+LEAN_TARGETS = ['CGV.Props.C07', 'CGV.Props.C07Path', 'CGV.Props.C07Tree', 'CGV.Props.C07TreeGraph', 'CGV.Props.C07TreeRead', 'CGV.Props.C07Cycle']
 RULE = ('connected graphs with node names and bond orders 0-4: random trees, rings, fused rings, dense graphs up to 14 '
         'nodes, random relabelings (non-contiguous keys); thorough: all connected graphs on <= 6 nodes (graph atlas) with '
         'orders from {1,2,0} on up to 3 marked edges; write_graph executed by implementation and Lean model (string '
